@@ -74,24 +74,24 @@ CHECKS = {
             "Simulation is sampled; the look-ahead allowance is a chosen constant (the property says 'a constant per adaptor'); zip/flatten/product/with_count/enumerate are covered by the stream semantics but not by the provenance model.",
             "DESIGN.md 6 C16"),
     "C17": ("model_checking",
-            "TLA+ finite-map semantics over equivalence classes: XrMap pool machine (-simulate) and XrMapEx (every linear history of <= 5 set / <= 4 mapping updates, breadth-first by TLC, read back as version tries) + TLA+ acceptor of bucket tables (XrMapRepr)",
+            "TLA+ finite-map semantics over equivalence classes: XrSetMix (every binary operation between sets of different (hash, equality) kinds), XrMap pool machine (-simulate) and XrMapEx (every linear history of <= 5 set / <= 4 mapping updates, breadth-first by TLC, read back as version tries) + TLA+ acceptor of bucket tables (XrMapRepr)",
             "TLC random-walks histories of mapping and set operations for a (hash, equality) pair drawn per program (identity / congruence mod 2, 3; hash injective / mod 2 / mod 3 / constant) and records the abstract map over equivalence classes; the interpreter must reproduce every version (all read back at the end: persistence) and every bucket table it built is validated by XrMapRepr (length exact, keys in the bucket of their hash, keys pairwise inequivalent).",
             "Keys are ints 0..5 (0..2 / 0..3 in the exhaustive tries), values ints; iteration order is not compared; hashes outside [0, 2^64) are not in this machine; the exhaustive part is complete within its bounds (3 keys, colliding hash, quick; more configurations thorough) and also compares == / hash between equal-size versions.",
             "DESIGN.md 6 C17"),
     "C18": ("model_checking",
-            "TLA+ code-point-sequence semantics of str (XrStr pool machine, -simulate) + literal encoder; behaviours replayed",
+            "TLA+ code-point-sequence semantics of str (XrStr pool machine, -simulate) + literal encoder; behaviours replayed; TLA+ acceptor of the dual string representation (XrStrRepr) over substring positions at and beyond the end",
             "TLC random-walks string operations (len, get, substring, find with start, rfind, contains, starts/ends_with, partition, rpartition, strip family, replace, reverse, mul, lower, upper, cmp, chars, add, split, code_point, eq) over an abstract alphabet of 1-4 byte characters, a combining mark and case-expanding characters and records results by list semantics (positions are code-point positions); the interpreter must agree and the dual representation of every result (byte buffer + character table) must be exact. Literal spellings are generated by encoding a text (quote kind, fences, raw, escapes, formatted) and must denote that text; formatted strings must equal the join of their parts.",
-            "Negative substring / find positions, empty needles, positions beyond the end and \\u{..} inside formatted strings are left open by the documentation and not generated (negative get indices are pinned by shipped script 089 and are generated).",
+            "Negative substring / find positions, empty needles, the text returned for positions beyond the end (only its well-formedness is decided) and \\u{..} inside formatted strings are left open by the documentation and not generated (negative get indices are pinned by shipped script 089 and are generated).",
             "DESIGN.md 6 C18"),
     "C14": ("model_checking",
             "TLA+ arbitrary-precision oracle (XrBigInt: limb arithmetic + defining relations) as trace acceptor over integer-builtin calls; TLC checks the limb arithmetic itself (MC_XrBigInt)",
             "Every integer builtin result (add, sub, mul, neg, abs, cmp and the six relations, pow, floor division with floored mod, ceil division, bitwise and/or/xor, gcd, lcm, factorial, binomial, digits in 4 bases, to_str/to_int, literal vs to_int) for operand pairs across the 31/63/64/127-bit boundaries and random 1-400-bit values is an event that TLC accepts only if it is the exact result (recomputed in base-10^4 limbs or checked by the defining relation), if the Short/Long representation is canonical, and if values reached along two routes are equal, hash equally and print equally.",
-            "int -> float -> int (floor / ceil / trunc) is checked on integers a double holds exactly (powers of two around 2^31 / 2^53 / 2^63 / 2^64 / 2^1023 and multiples); inexact float conversions and `div` are not (no reals in TLC), nor multinomial and the combinatorial index functions; gcd maximality relies on the interpreter's own gcd of the cofactors.",
+            "int -> float -> int (floor / ceil / trunc) is checked on integers a double holds exactly (powers of two around 2^31 / 2^53 / 2^63 / 2^64 / 2^1023 and multiples); inexact float conversions and `div` are not (no reals in TLC); the whole binomial triangle (n <= 150 quick / 400 thorough) is checked through the step relation and two-part multinomials against binomials; not multinomials of more than three parts and the combinatorial index functions; gcd maximality relies on the interpreter's own gcd of the cofactors.",
             "DESIGN.md 6 C14"),
     "C19": ("model_checking",
             "TLA+ order/text/format semantics (XrOrder, laws checked by TLC) and stable-sort reference (XrSort) replayed; failing-comparator sweeps validated by XrRuntime",
             "TLC enumerates all typed value pairs of a 10-type nested universe with structural eq and lexicographic cmp (laws: equivalence, antisymmetry, transitivity, consistency, prefix rule checked on the model) and all well-formed integer format specifiers of the documented grammar x values; the interpreter's eq/ne/cmp/lt/le/gt/ge/to_str/format/hash must agree (equal => equal hash, hash in [0, 2^64)). Sort and order statistics are compared with the stable reference on inputs up to 200 elements; a comparator that raises a violation at the k-th comparison (every k) or an error on a poison element must give that outcome with accounting balanced (XrRuntime trace validation).",
-            "Float formatting with precision, Stack/Set/Mapping text, median/rank functions and '^' odd padding are not covered. Comparators failing on one ordered pair only are decided by a printing oracle (asked => that error; never asked => the stable permutation); stacks incl. shared element objects by XrStack; str format specifiers (width in characters) by XrOrder.",
+            "Float formatting is decided for the fixed-point modes on dyadic values (exact decimal expansion; rounding ties left open), not for e/E; Stack/Set/Mapping text, median/rank functions and '^' odd padding are not covered. Equal mappings reached through different histories (XrMapEx) must be == and hash equally. Comparators failing on one ordered pair only are decided by a printing oracle (asked => that error; never asked => the stable permutation); stacks incl. shared element objects by XrStack; str format specifiers (width in characters) by XrOrder.",
             "DESIGN.md 6 C19"),
     "C20": ("model_checking",
             "TLA+ day-step calendar machine with closed forms proved against it by TLC (XrConv) replayed into date/julian_day/weekday/datetime/unix; fraction results as events accepted by the XrBigInt limb-arithmetic acceptor (cross-multiplication, lowest terms, positive denominator); inverse laws for radix text, code points and JSON replayed",
